@@ -106,6 +106,22 @@ func establisherHandoff(c *kit.Ctx) {
 		c.Check(!kit.MayReach(d.(ssa.Instruction), put.(ssa.Instruction)), est, "no-del-before-put", d.Pos(), "regions.del is only called where regions.put is not reached afterwards",
 			"the original region is deleted from the cache before regions.put: put's age rule no longer sees it, so a stale meta answer carrying an older region evicts nothing and is inserted over a newer cached region")
 	}
+	// (b') the establisher removes a region from the location cache only where hbase:meta said that it does not
+	// exist (TableNotFound) - on every way to the call. A region that merely lost a lookup, or whose lookup
+	// lost against it, may be the newest one the cache has.
+	tnf := c.P.Global("", "TableNotFound")
+	for _, d := range kit.Calls(est, kit.M("", "*keyRegionCache", "del")) {
+		good := tnf != nil && kit.OnAllWays(d.Block(), func(facts []kit.Fact) bool {
+			for _, f := range facts {
+				if cmp, ok := kit.CanonCmp(f.Cond, f.Pol); ok && cmp.Op == token.EQL && (isGlobalLoad(cmp.X, tnf) || isGlobalLoad(cmp.Y, tnf)) {
+					return true
+				}
+			}
+			return false
+		}, 0)
+		c.Check(good, est, "del-only-when-gone", d.Pos(), "regions.del only where the lookup answered TableNotFound",
+			"the establisher deletes a region from the location cache although hbase:meta did not say it is gone (e.g. because the looked-up region lost against the cache): the deleted region can be the newest one - keys it serves are looked up again and the stale answer is cached in its place")
+	}
 	// (c)
 	repl := kit.ExtractOf(put.Value(), 1)
 	ov := kit.ExtractOf(put.Value(), 0)
@@ -307,9 +323,21 @@ func resultOnWayFrom(fn *ssa.Function, at ssa.Instruction, k int) string {
 			}
 		}
 	}
+	// the result may be "no failure was counted": failed == 0 with failed a counter that only grows
+	counting := false
 	kit.Instrs(fn, func(in ssa.Instruction) {
 		if r, ok := in.(*ssa.Return); ok && k < len(r.Results) {
-			grow(kit.Res(r, k))
+			rv := kit.Res(r, k)
+			if cmp, ok := kit.CanonCmp(rv, true); ok && !cmp.Bytes && cmp.Op == token.EQL {
+				if z, isK := kit.ConstInt(cmp.Y); isK && z == 0 {
+					if ph, isPhi := kit.Strip(cmp.X).(*ssa.Phi); isPhi {
+						counting = true
+						grow(ph)
+						return
+					}
+				}
+			}
+			grow(rv)
 		}
 	})
 	b := at.Block()
@@ -322,6 +350,19 @@ func resultOnWayFrom(fn *ssa.Function, at ssa.Instruction, k int) string {
 					break
 				}
 				if !inWeb[ph] {
+					continue
+				}
+				if counting {
+					for i, q := range m.Preds {
+						if q == b {
+							if bo, ok := kit.Strip(ph.Edges[i]).(*ssa.BinOp); ok && bo.Op == token.ADD && inWeb[kit.Strip(bo.X)] {
+								if inc, isK := kit.ConstInt(bo.Y); isK && inc > 0 {
+									return "false"
+								}
+							}
+							return ""
+						}
+					}
 					continue
 				}
 				for i, q := range m.Preds {
@@ -554,7 +595,17 @@ func headerExceptionIsClassified(c *kit.Ctx) {
 			return
 		}
 		n++
-		call, ok := kit.Root(returnedError(r)).(*ssa.Call)
+		rv := kit.Root(returnedError(r))
+		// the result itself, or the same value after a type assertion narrowed it (serr, ok := x.(ServerError))
+		if ex, isEx := rv.(*ssa.Extract); isEx {
+			if ta, isTA := ex.Tuple.(*ssa.TypeAssert); isTA && ex.Index == 0 {
+				rv = kit.Root(ta.X)
+			}
+		}
+		if ta, isTA := rv.(*ssa.TypeAssert); isTA {
+			rv = kit.Root(ta.X)
+		}
+		call, ok := rv.(*ssa.Call)
 		c.Check(ok && kit.CalleeName(call) == x2e, recv, "exception-classified", r.Pos(), "the error of an exception response is the result of exceptionToError, unchanged", "an exception response can be turned into an error that did not come out of exceptionToError unchanged (e.g. because of its do_not_retry flag): the client's reaction no longer depends on the exception class alone - a stopping master, a moved region or a full call queue is reported to the caller instead of being retried")
 	})
 	if n == 0 {
@@ -953,11 +1004,16 @@ func ptrOrigins(fn *ssa.Function, v ssa.Value, depth int, seen map[ssa.Value]boo
 		add(ptrOrigins(fn, x.X, depth+1, seen))
 	case *ssa.Extract:
 		out["call"] = x
+	case *ssa.TypeAssert:
+		add(ptrOrigins(fn, x.X, depth+1, seen))
 	case *ssa.UnOp:
 		if x.Op != token.MUL {
 			return out
 		}
 		switch a := x.X.(type) {
+		case *ssa.TypeAssert, *ssa.Call, *ssa.Extract:
+			// what a pointer that came out of a call points to: wherever the call got it from
+			add(ptrOrigins(fn, a, depth+1, seen))
 		case *ssa.Global:
 			out["global"] = a
 		case *ssa.Alloc:
@@ -1474,6 +1530,24 @@ func responseIndicesAreUnique(c *kit.Ctx) {
 							if ev := returnedError(r); ev != nil && !kit.IsNilConst(kit.Root(ev)) {
 								tested = true
 							}
+						}
+					}
+					if !tested {
+						// the rejection may go through a helper's error result: no way from the rejecting edge to a
+						// return without an error
+						ok := kit.PathFrom(x, kit.PathQuery{
+							SkipEdge: func(from, to *ssa.BasicBlock) bool { return from == x.Block() && to != rej },
+							Target: func(y ssa.Instruction) bool {
+								r, isRet := y.(*ssa.Return)
+								if !isRet {
+									return false
+								}
+								ev := returnedError(r)
+								return ev == nil || kit.IsNilConst(kit.Root(ev))
+							},
+						}) == nil
+						if ok {
+							tested = true
 						}
 					}
 				}
